@@ -224,11 +224,11 @@ Print Assumptions C04_sizes_threads_irrelevant_volume.
 
 (* some bound on the volume IS needed when limit < capacity: a stream of equal keys is flushed every `limit` events,
    never reaches the merge_all test (ind stays tiny), and the level counter overflows `min`.  Here with the drivers'
-   buffer shape (capacity 32, |min| = 2 * ceil(log2 32) = 10) at limit = 1: 1023 equal events (the hypothesis of
-   C04_acc_total_volume allows 63 there, the truth is 1022). *)
+   buffer shape (capacity 32, |min| = 2 * ceil(log2 32) = 10) at limit = 1: 1022 equal events (1021 still run; the
+   hypothesis of C04_acc_total_volume allows 63 there, that of C04_acc_total 254). *)
 Theorem C04_volume_bound_needed_refuted :
   exists evs, init_default 32 = init 32 10 /\ run 1 32 10 evs = OOB S_ms_min_i1.
-Proof. exists (repeat (0, 0, 1, 0) (Z.to_nat 1023)). vm_compute. split; reflexivity. Qed.
+Proof. exists (repeat (0, 0, 1, 0) (Z.to_nat 1022)). vm_compute. split; reflexivity. Qed.
 Print Assumptions C04_volume_bound_needed_refuted.
 
 (* per-operation content of the strengthening: merge_all leaves the level counter at 2^(number of occupied levels) *)
